@@ -15,7 +15,8 @@ class LedgerGen:
         self.r = rng
         self.ops = ["open"]
         self.tags = set()
-        self.height = 0           # committed height
+        self.height = 0
+        self._recheck = None           # committed height
         self.flushed = False
         self.snaps = []
         self.dirty_since_fin = False
@@ -97,10 +98,42 @@ class LedgerGen:
                 self.read()
         self.ops.append("finalise")
 
+    def scripted_revert(self):
+        """transactions of one block that touch the same key, the last of them reverted: delete-then-failed-rewrite,
+        set-then-failed-delete, set-then-failed-overwrite, add-then-failed-set (boundary of the undo journal: the reverted
+        write's previous value is another transaction's dirty value, possibly a delete)"""
+        r = self.r
+        a, k = r.choice(ACCTS), r.choice(KEYS)
+        first = r.choice(["del", "set", "set", "add", "none"])
+        second = r.choice(["set", "set", "del", "add"])
+        if first == "del":
+            self.ops.append(f"del {a} {k}")
+        elif first in ("set", "add"):
+            self.ops.append(f"{first} {a} {k} {self.val()}")
+        if first != "none":
+            self.ops.append("finalise")
+        self.ops.append("snap")
+        if r.random() < 0.3:
+            self.ops.append(f"get {a} {k}")
+        if second == "del":
+            self.ops.append(f"del {a} {k}")
+        else:
+            self.ops.append(f"{second} {a} {k} {self.val()}")
+        if r.random() < 0.4:
+            self.ops.append(f"set {a} {r.choice(KEYS)} {self.val()}")
+        self.ops.append("revert 0")
+        self.ops.append("finalise")
+        self.ops.append(f"get {a} {k}")
+        self.tags.add(f"scripted-revert:{first}-{second}")
+        self._recheck = (a, k)
+
     def block(self):
         r = self.r
+        self._recheck = None
         for _ in range(r.randint(0, 4)):
             self.tx()
+        if r.random() < 0.25:
+            self.scripted_revert()
         if r.random() < 0.3:
             self.dump()
         self.ops.append("flush")
@@ -112,6 +145,12 @@ class LedgerGen:
             self.ops.append("clear")
         self.height += 1
         self.ops.append(f"commit {self.height}")
+        if self._recheck is not None:
+            a, k = self._recheck
+            self.ops.append(f"get {a} {k}")
+            if r.random() < 0.5:
+                self.ops.append(f"evict state {a}")
+                self.ops.append(f"get {a} {k}")
         if r.random() < 0.25:
             k = r.random()
             a = r.choice(ACCTS)
@@ -141,11 +180,57 @@ class LedgerGen:
             self.height = t
         self.dump()
 
+    def plain_block(self, ops):
+        self.ops += ops + ["finalise", "flush"]
+        self.height += 1
+        self.ops.append(f"commit {self.height}")
+
+    def scripted_rollback(self):
+        """a field of one account is set at height h and replaced at h+1 (..h+2); roll back to h; the next block touches the
+        same account through ANOTHER field; read the first field back (stale per-account caches after a rollback)"""
+        r = self.r
+        a = r.choice(ACCTS)
+        field = r.choice(["code", "code", "key", "bal", "nonce"])
+        c1, c2 = r.sample(list(CODES), 2)
+        k = r.choice(KEYS)
+
+        def w(first):
+            if field == "code":
+                c = c1 if first else c2
+                return [f"setcode {a} {c} {CODES[c]}"]
+            if field == "key":
+                return [f"set {a} {k} {'v1' if first else 'zz'}"]
+            if field == "bal":
+                return [f"setbal {a} {5 if first else 100}"]
+            return [f"setnonce {a} {1 if first else 7}"]
+
+        rd = {"code": f"code {a}", "key": f"get {a} {k}", "bal": f"bal {a}", "nonce": f"nonce {a}"}[field]
+        other = {"code": [f"setbal {a} 1"], "key": [f"setnonce {a} 2"], "bal": [f"set {a} x w"], "nonce": [f"setbal {a} 100"]}[field]
+        self.plain_block(w(True))
+        h = self.height
+        for _ in range(r.choice([1, 1, 2])):
+            self.plain_block(w(False) if r.random() < 0.8 else [f"setbal {r.choice(ACCTS)} 1"])
+        if r.random() < 0.5:
+            self.ops.append(rd)               # warm the caches with the newer value
+        self.ops.append(f"rollback {h}")
+        self.ops.append("ver")
+        self.height = h
+        self.ops.append(rd)
+        self.plain_block(other)
+        self.ops.append(rd)
+        if r.random() < 0.5:
+            self.plain_block(w(False))
+            self.ops.append(rd)
+        self.tags.add("scripted-rollback:" + field)
+        self.tags.add("rollback")
+
     def history(self, nblocks, rollbacks=True):
         for _ in range(nblocks):
             self.block()
             if rollbacks and self.r.random() < 0.12 and self.height > 0:
                 self.rollback()
+            if rollbacks and self.r.random() < 0.08:
+                self.scripted_rollback()
         self.dump()
         return History(self.ops, tags=self.tags)
 
@@ -160,6 +245,48 @@ def gen(rng, n, tier, blocks=(2, 9), deep=False, **kw):
             nb = rng.randint(11, 16)    # beyond the journal window so pruning happens
         hs.append(g.history(nb))
     return hs
+
+
+def gen_revert(rng, n, tier):
+    """C07 focus at the ledger level: every block contains a scripted 'failed transaction' (snapshot, writes, revert) whose key
+    was touched by an earlier transaction of the same block or by an earlier block; no empty values / prefix queries, so that the
+    recorded C13 findings about those stay out of the picture"""
+    import random as _r
+    hs = []
+    for _ in range(n):
+        g = LedgerGen(_r.Random(rng.getrandbits(64)), empty_vals=False, query_ops=False)
+        for _b in range(rng.randint(2, 6)):
+            r = g.r
+            g._recheck = None
+            for _t in range(r.randint(0, 2)):
+                g.tx()
+            g.scripted_revert()
+            g.ops.append("flush")
+            g.height += 1
+            g.ops.append(f"commit {g.height}")
+            a, k = g._recheck
+            g.ops.append(f"get {a} {k}")
+            if r.random() < 0.5:
+                g.ops.append(f"evict state {a}")
+                g.ops.append(f"get {a} {k}")
+            if r.random() < 0.15:
+                g.ops.append("reopen")
+                g.ops.append(f"get {a} {k}")
+        g.dump()
+        hs.append(History(g.ops, tags=g.tags | {"c07-ledger"}))
+    return hs
+
+
+def mon_c07(h, obs):
+    """the plain-map reference of C13, reported under C07: a reverted transaction leaves every key as it was"""
+    out = []
+    for x in mon_ledger(h, obs, "C13"):
+        tail = x.fp.split("/", 1)[1]
+        if tail.startswith("empty-value-not-persisted") or tail.startswith("query-ignores-cache"):
+            continue      # C13's recorded findings (corpus witnesses of the ledger engine are replayed here too); not about reverts
+        x.fp = "C07/ledger-revert/" + tail
+        out.append(x)
+    return out
 
 
 # ------------------------------------------------------------------------------------------ monitors
